@@ -43,7 +43,7 @@ CHECKS = {
              text="Claimed for nesting schedules: for 5 (thorough 9) pairs of overlapping queries and MemoryCache / StoreCache (thorough + FileCache on ShimFS, + a third evaluation nested at depth 2) every window k in which the second evaluation runs to completion inside the first is a solver decision; each evaluation returns what it returns alone and every ready entry left in the cache equals a fresh evaluation of its key. Alternating (non-nested) thread schedules, the pool and the web server are outside the claim.",
              design="§4 C12"),
  "C13": dict(level="model_checking", technique="CrossHair/z3 bounded symbolic execution: one-step map lemma over cache back-ends and combinators from API-reached pre-states chosen by solver decisions; path-scheme kernel on free symbolic key strings",
-             text="In-process back-ends only (MemoryCache, CacheProxy, FileCache/ShimFS, StoreCache flat+nested on MemoryStore and FileStore/ShimFS, '+' with MemoryCache/NoCache, four conditional wrappers with symbolic attribute value; quick: 7 of 14): from every pre-state (each of 3 (thorough 4) confusable keys absent/ready/metadata-only) one operation (store of 5 value types, store_metadata evaluation/ready, remove, clean, reads) leaves get/get_metadata/contains/keys of every key equal to the map model. Kernel: nested StoreCache.to_path is injective and prefix-free for |k1|<=2 (4), |k2|<=|k1|+14 outside the listed collision. SQL/XOR/Fernet caches are outside the claim.",
+             text="18 back-ends / combinators (MemoryCache, CacheProxy, FileCache/ShimFS, StoreCache flat+nested on MemoryStore and FileStore/ShimFS, '+' with MemoryCache/NoCache, four conditional wrappers, SQLCache and SQLStringCache on in-memory sqlite, XORFileCache and FernetFileCache on ShimFS incl. 'no plain bytes on disk'; their C libraries run untraced on each path's concrete data; quick: 11 of 18): from every pre-state (each of 3 (thorough 4) confusable keys absent/ready/metadata-only) one operation (store of 5 value types, store_metadata evaluation/ready, remove, clean, reads) leaves get/get_metadata/contains/keys of every key equal to the map model. Kernel: nested StoreCache.to_path is injective and prefix-free for |k1|<=2 (4), |k2|<=|k1|+14 outside the listed collision. ",
              design="§4 C13"),
  "C14": dict(level="model_checking", technique="CrossHair/z3 bounded symbolic execution: routing/translation kernels on free symbolic key and prefix strings, union-view step over mount tables and contents chosen by solver decisions",
              text="Kernels: for all prefixes |p|<=3 and keys |k|<=4 over {a,b,/} (thorough 4/5) PrefixStore.translate_key strips exactly the prefix and its inverse/to_root_key restore the key; with two mounts (outer first) route_to picks the innermost mount containing the key else the default, and a sub-store entry is reached through the root under to_root_key. Union views: 5 (thorough 7) mount tables x with/without default x all subsets of a 6-key (thorough 8-key) universe x one more write: every observer of the composite equals the re-prefixed union and each part holds exactly its share.",
@@ -55,7 +55,7 @@ CHECKS = {
              text="Bounded exhaustive symbolic exploration: every directory depth <=3 (thorough 4) x every component-class vector of length <=4 (thorough 6) is covered by an exhausted path tree of the real to_absolute code; Query-level frame/idempotence obligations over <=3 segments.",
              design="§4 C19"),
  "C16": dict(level="fault_enumeration", technique="CrossHair/z3 symbolic fault variables (crash point, torn length) over the real FileCache/FileStore/StoreCache write paths on an in-memory POSIX model (ShimFS)",
-             text="For store / store_metadata / remove of a fresh or existing entry (5 value types, type-changing overwrites included) in FileCache, FileStore and StoreCache (flat, nested) on a FileStore: every crash point 0..14 of the mutating FS operations and torn flush lengths {0..16 (thorough 0..256), len/2, len-1} are solver decisions; after the crash a fresh object must read nothing, the complete old or the complete new value, and a second entry must be unchanged. The path tree is exhausted per (back-end, operation).",
+             text="For store / store_metadata / remove of a fresh or existing entry (5 value types, type-changing overwrites included) in FileCache, XORFileCache, FernetFileCache, FileStore and StoreCache (flat, nested) on a FileStore: every crash point 0..14 of the mutating FS operations and torn flush lengths {0..16 (thorough 0..256), len/2, len-1} are solver decisions; after the crash a fresh object must read nothing, the complete old or the complete new value, and a second entry must be unchanged. The path tree is exhausted per (back-end, operation).",
              design="§4 C16"),
  "C17": dict(level="model_checking", technique="CrossHair/z3 bounded symbolic execution: one-step lemma over the read-only proxy from arbitrary valid pre-states, and a root-containment kernel over FileStore key handling on an in-memory POSIX model (ShimFS) with logged accesses",
              text="Read-only view: from every valid 6-key pre-state (MemoryStore, FileStore/ShimFS) each of 7 mutators with universe keys, free symbolic key text |k|<=3, symbolic payload and 13 write modes is refused with ReadOnlyStoreException and leaves every observer and the FS snapshot unchanged; reads equal the underlying reads. Containment: every key of <=3 (thorough 4) components over {name,'.','..','','__metadata__'} x leading '/' x 15 operations, directly / via mount / via evaluate_resource, touches nothing outside the root.",
